@@ -59,8 +59,10 @@ def _reject(text, value):
     """Raise the rejection; remember the exception OBJECT so that the oracle
     can ask for 'the original exception'.  Every other one carries no message
     at all (a legal way to raise ValueError)."""
-    k = len(value) % 3
-    j = (len(text) + len(value)) % 7
+    import zlib
+    sel = zlib.crc32(text.encode("utf-8")) % 6      # spread over the shapes
+    j = {3: 0, 4: 1, 5: 2}.get(sel, 9)
+    k = sel if sel < 3 else 9
     if j == 0:
         # ValueError with several arguments, not all of them strings (the
         # shape of UnicodeEncodeError, or ValueError("out of range", 70000))
